@@ -1479,13 +1479,13 @@ def strata_catalogue(tables, texts):  # pylint: disable=too-many-locals,too-many
 	add('dependency rule [included name ends with an allowed name]', '#include "', extended_target_suffix)
 
 	# cross-component includes: one stratum per rule set
-	def cross_family(kind, path_regex, include_regex, replacement):
+	def cross_family(kind, path_regex, include_regex, replacement, site_filter=None):
 		def make(rng, path, lines):
 			match = re.match(path_regex, path)
 			if not match:
 				return None
 			pattern = re.compile(include_regex.format(*[re.escape(g) for g in match.groups()]))
-			candidates = [k for k in range(len(lines)) if pattern.match(lines[k])]
+			candidates = [k for k in range(len(lines)) if pattern.match(lines[k]) and (site_filter is None or site_filter(path, lines[k]))]
 			if not candidates:
 				return None
 			i = rng.choice(candidates)
@@ -1493,7 +1493,27 @@ def strata_catalogue(tables, texts):  # pylint: disable=too-many-locals,too-many
 		add(f'cross-component include [{kind}]', '#include "', make)
 
 	cross_family('plugins', r'^plugins/txes/([a-z_]+)/tests/.*\.cpp$', r'^#include "plugins/txes/[a-z_]+/tests/', '#include "plugins/txes/zzseeded/tests/')
-	cross_family('extensions', r'^extensions/([a-z]+)/tests/.*\.cpp$', r'^#include "{0}/tests/', '#include "zzseeded/tests/')
+
+	# ExtensionRules.validate_cross_includes reports a foreign extension's test header unless the directory of the including file under
+	# <extension>/ (fourth path element; for files right under tests/ the file name) and the third element of the include have the same
+	# name up to the first underscore - a comparison meant for the plugin families of extensions/mongo.  Two strata: names differ (must be
+	# reported), names equal (`finalization/tests/test/X.cpp` including `other/tests/test/...`: reported to the lead separately)
+	def sub_directories(path, line):
+		parts = path.split('/')
+		included = line[len('#include "'):].split('"')[0].split('/')
+		if len(parts) < 4 or len(included) < 3:
+			return None
+		return parts[3].split('_')[0], included[2].split('_')[0]
+
+	def differ(path, line):
+		names = sub_directories(path, line)
+		return names is not None and names[0] != names[1]
+
+	def equal(path, line):
+		names = sub_directories(path, line)
+		return names is not None and names[0] == names[1]
+	cross_family('extensions', r'^extensions/([a-z]+)/tests/.*\.cpp$', r'^#include "{0}/tests/', '#include "zzseeded/tests/', differ)
+	cross_family('extensions, equally named sub-directory', r'^extensions/([a-z]+)/tests/.*\.cpp$', r'^#include "{0}/tests/', '#include "zzseeded/tests/', equal)
 	return entries
 
 
